@@ -1,4 +1,4 @@
-import CardVerif.Spec.GinRules
+import CardModel.Spec.GinRules
 import CardVerif.Proofs.GinViews
 /-!
 # C17 — gin views: the public card map is truthful and hidden cards stay hidden
